@@ -123,6 +123,13 @@ func (m *Machine) ActShutdown(t *rapid.T) {
 	if forced && k == 0 {
 		force()
 	}
+	longPoll := forced && k > 0
+	if longPoll {
+		// the deadline of a forced shutdown must be honoured when it passes, not at the next poll of the
+		// shutdown loop: with a long poll interval the difference becomes observable
+		m.w.PR.ShutdownPollInterval = 300 * time.Millisecond
+		m.w.Stats.hit("shutdown:forced-deadline-inside-poll-interval")
+	}
 	atomic.AddInt32(&m.mem.Explicit, 1)
 	done := make(chan error, 1)
 	go func() { done <- m.w.PR.Shutdown(ctx) }()
@@ -203,7 +210,10 @@ func (m *Machine) ActShutdown(t *rapid.T) {
 			choices = append(choices, "force", "force")
 		}
 		choices = append(choices, "schedule", "save")
-		if len(open) == 0 && len(held) == 0 && (!forced || ctxCanceled) {
+		if len(open) == 0 && len(held) == 0 && forced && !ctxCanceled {
+			force() // nothing executes any more: let the deadline pass now
+		}
+		if len(open) == 0 && len(held) == 0 {
 			// nothing left that the harness must do: the shutdown has to return by itself
 			select {
 			case ret = <-done:
@@ -229,6 +239,33 @@ func (m *Machine) ActShutdown(t *rapid.T) {
 			m.release(r)
 		case "force":
 			force()
+			if longPoll && m.forcedJobs > 0 {
+				// running jobs are told to stop promptly (100 ms is two orders of magnitude above what the
+				// runner needs, and a third of the poll interval)
+				limit := time.Now().Add(100 * time.Millisecond)
+				for {
+					m.w.mu.Lock()
+					missing := 0
+					for _, j := range m.w.Order {
+						n := 0
+						for _, r := range j.Runners {
+							n += r.CancelCalls
+						}
+						if n < j.ExpectCancelCalls {
+							missing++
+						}
+					}
+					m.w.mu.Unlock()
+					if missing == 0 {
+						break
+					}
+					if time.Now().After(limit) {
+						m.fail("C11", "forced shutdown: the deadline has passed but %d running jobs were not told to stop within 100ms (the shutdown loop polls every %s)", missing, m.w.PR.ShutdownPollInterval)
+						break
+					}
+					time.Sleep(time.Microsecond)
+				}
+			}
 		case "schedule":
 			names := m.definedPipelines()
 			if len(names) == 0 {
